@@ -110,6 +110,40 @@ def check_order(pairs):
     return n, None
 
 
+def check_arbitration(pairs):
+    """'NAME comparison used in address arbitration is the comparison of these 64-bit values': an operational CA (own NAME)
+    receives an address-claimed frame for its address from a contender NAME; it must give the address up exactly when the
+    contender's 64-bit value is lower, keep it (and stay operational) when it is higher, ignore an equal one."""
+    from vlib import simbus
+    n = 0
+    j = W.load()
+    State = j.ControllerApplication.State
+    w = W.World(default_latency=(0.0002,))
+    try:
+        raw = simbus.RawNode(w.bus, "X")
+        stacks = []
+        for idx, (own, other) in enumerate(pairs):
+            own &= ~(1 << 48) & ONES64
+            other &= ~(1 << 48) & ONES64
+            stk = w.stack("s%d" % idx)
+            addr = 0x10 + (idx % 100)
+            ca = stk.add_ca("c", own, addr, bypass=True)
+            stacks.append((stk, ca, own, other, addr))
+        for (stk, ca, own, other, addr) in stacks:
+            n += 1
+            # only this stack is to see the contender: deliver directly to it
+            stk.rx(simbus.mkframe(R.mk_id(6, 0, 0xEE, 255, addr), R.name_bytes(other)))
+            keeps = ca.state == State.NORMAL and ca.device_address == addr
+            want_keep = other >= own
+            if keeps != want_keep:
+                return n, ("arbitration-order", "CA with NAME 0x%016X on address %d received a claim from NAME 0x%016X (numerically %s): it %s "
+                           "the address" % (own, addr, other, "lower" if other < own else ("equal" if other == own else "higher"),
+                                            "kept" if keeps else "gave up"))
+    finally:
+        w.close()
+    return n, None
+
+
 ID_PGN_B = [0, 1, 0xFE, 0xFF, 0x100, 0xEFFF, 0xF000, 0xF0FF, 0xFEFF, 0xFFFF, 0x10000, 0x1EE00, 0x1FFFF, 0x20000,
             0x2FFFF, 0x30000, 0x3FFFE, 0x3FFFF, 0xEA00, 0xEB00, 0xEC00, 0xEE00, 0x4D00, 0x4E00, 0x2500]
 ID_SA_B = [0, 1, 2, 127, 128, 247, 248, 253, 254, 255]
@@ -124,7 +158,7 @@ class C15:
             "boundary combinations and single bits, plus a 2^19-element stride sample whose offset depends on VERIF_SEED "
             "(quick) or all 2^29 identifiers (thorough); NAME: every field swept over its full range with the other fields "
             "all-zero and all-ones, all 64 single-bit values, all 3^10 {min,mid,max} field tuples, ordering of adjacent and "
-            "random pairs, and Hypothesis draws of random 64-bit values/identifiers; every block is non-trivial; distinct = "
+            "random pairs, the arbitration decision of an operational CA for NAME pairs whose bytes order them in opposite ways, and Hypothesis draws of random 64-bit values/identifiers; every block is non-trivial; distinct = "
             "distinct blocks; 'subruns' counts the individual values checked")
     ASSUMPTIONS = [
         "constructor arguments are in range (the Name constructor documents ValueError otherwise)",
@@ -181,6 +215,8 @@ class C15:
         for part in range(9):
             out.append({"k": "name_tuples", "part": part})
         out.append({"k": "name_order_adjacent"})
+        for part in range(4):
+            out.append({"k": "arbitration", "part": part})
         return out
 
     def run_case(self, p):
@@ -229,6 +265,29 @@ class C15:
                     x = base | (1 << lo)
                     pairs += [(x, base), (base, x), (x, x), (x, x ^ 1), (x ^ (1 << 63), x), (x, x ^ (1 << 47)), (x, x ^ (1 << 49))]
             n, fail = check_order(pairs)
+        elif k == "arbitration":
+            pairs = []
+            base = 0x0123456789ABCDEF & ~(1 << 48)
+            # byte i orders the NAMEs one way, byte j the other way (i < j): the more significant byte must decide
+            for i in range(8):
+                for jj in range(i + 1, 8):
+                    for b0 in (base, 0):
+                        lo_i, hi_i = 0x10 << (8 * i), 0x20 << (8 * i)
+                        lo_j, hi_j = 0x02 << (8 * jj), 0x04 << (8 * jj)
+                        clear = ~((0xFF << (8 * i)) | (0xFF << (8 * jj))) & ONES64
+                        a = (b0 & clear) | hi_i | lo_j
+                        b = (b0 & clear) | lo_i | hi_j
+                        pairs += [(a, b), (b, a)]
+            # single-bit differences at every bit, adjacent values, equal values
+            for bit in range(64):
+                if bit == 48:
+                    continue
+                pairs += [(base, base ^ (1 << bit)), (base ^ (1 << bit), base)]
+            pairs += [(base, base), (base, base + 1), (base + 1, base), (0, 1), (1, 0), (ONES64 & ~(1 << 48), (ONES64 & ~(1 << 48)) - 1),
+                      (0x00000000000000FF, 0x0000000000000100), (0x0000000000000100, 0x00000000000000FF),
+                      (0x8000000000000001, 0x0000000000000002), (0x0000000000000002, 0x8000000000000001)]
+            pairs = pairs[p["part"]::4]
+            n, fail = check_arbitration(pairs)
         elif k == "rand":
             n, fail = check_names(p["names"])
             if fail is None:
@@ -239,6 +298,9 @@ class C15:
                 for v, b1, b2 in p["pairs"]:
                     pairs += [(v, v ^ (1 << b1)), (v ^ (1 << b2), v ^ (1 << b1)), (v, v)]
                 n2, fail = check_order(pairs)
+                n += n2
+            if fail is None:
+                n2, fail = check_arbitration([(v ^ (1 << b2), v ^ (1 << b1)) for v, b1, b2 in p["pairs"][:2]])
                 n += n2
         else:
             raise ValueError(k)
